@@ -357,7 +357,9 @@ def handoff(ck, proc):
         tgt = skip_copies(mtt[0]["args"][0])
         okt = any(is_this_field(x, OT + "::m_thread") for x in walk(tgt))
         t0 = skip_copies(deref_local(mv, tgt))
-        if not okt and isinstance(tgt, dict) and tgt.get("k") == "ref" and tgt.get("dk") == "local":
+        if not okt and isinstance(t0, dict) and any(is_this_field(x, OT + "::m_thread") for x in walk(t0)):
+            okt = True       # a helper's parameter bound to m_thread at the (spliced) call
+        if not okt and isinstance(tgt, dict) and tgt.get("k") == "ref" and tgt.get("dk") in ("local", "param"):
             # a local that is also what m_thread is set to (`auto thread = new QThread; m_thread = thread;`), through helper parameters
             chain = [skip_copies(tgt)]
             for _ in range(4):
